@@ -579,6 +579,8 @@ func (r *Reconciler) reconcileApply(ctx context.Context, transaction *configapi.
 	switch transaction.Status.Phases.Apply.State {
 	case configapi.TransactionApplyPhase_APPLYING:
 		allApplied := true
+		var failure *configapi.Failure
+		failed := false
 		for _, proposalID := range transaction.Status.Proposals {
 			proposal, err := r.proposals.Get(ctx, proposalID)
 			if err != nil {
@@ -606,17 +608,27 @@ func (r *Reconciler) reconcileApply(ctx context.Context, transaction *configapi.
 			case configapi.ProposalApplyPhase_APPLYING:
 				allApplied = false
 			case configapi.ProposalApplyPhase_FAILED:
-				log.Warnf("Transaction %d apply failed", transaction.Index)
-				transaction.Status.State = configapi.TransactionStatus_FAILED
-				transaction.Status.Failure = proposal.Status.Phases.Apply.Failure
-				transaction.Status.Phases.Apply.State = configapi.TransactionApplyPhase_FAILED
-				transaction.Status.Phases.Apply.Failure = proposal.Status.Phases.Apply.Failure
-				transaction.Status.Phases.Apply.End = getCurrentTimestamp()
-				if err := r.updateTransactionStatus(ctx, transaction); err != nil {
-					return controller.Result{}, err
+				// Remember the first failure, but go on: the apply phase of every proposal must have been
+				// started before the transaction is failed, since a failed transaction is not reconciled again
+				allApplied = false
+				if !failed {
+					failed = true
+					failure = proposal.Status.Phases.Apply.Failure
 				}
-				return controller.Result{}, nil
 			}
+		}
+
+		if failed {
+			log.Warnf("Transaction %d apply failed", transaction.Index)
+			transaction.Status.State = configapi.TransactionStatus_FAILED
+			transaction.Status.Failure = failure
+			transaction.Status.Phases.Apply.State = configapi.TransactionApplyPhase_FAILED
+			transaction.Status.Phases.Apply.Failure = failure
+			transaction.Status.Phases.Apply.End = getCurrentTimestamp()
+			if err := r.updateTransactionStatus(ctx, transaction); err != nil {
+				return controller.Result{}, err
+			}
+			return controller.Result{}, nil
 		}
 
 		if allApplied {
